@@ -102,8 +102,29 @@ Fixpoint expect_ty (t : qty) : ty :=
   end.
 Local Close Scope string_scope.
 Definition unknown_ty : ty := TyRef [L "unknown"] [].
-Definition expected_payload (p : expr) (env : renv) : ty :=
-  match evident_type p env with Some t => expect_ty t | None => unknown_ty end.
+(* the translation includes the configured type mappings (C18): a mapped custom name, at any depth,
+   denotes its target (a bare name for the three primitive targets, types.T otherwise) *)
+Definition target_ty (t : str) : ty :=
+  if named t ["string"; "number"; "boolean"]%string then TyRef [t] [] else TyRef [L "types"; t] [].
+Fixpoint expect_ty_m (m : list (str * str)) (t : qty) : ty :=
+  match t with
+  | QRef u => expect_ty_m m u
+  | QTuple [] => tref ["void"]%string
+  | QTuple ts => TyTuple (map (expect_ty_m m) ts)
+  | QPath _ n _ args =>
+      match prim_ts n with
+      | Some p => p
+      | None =>
+        if named n ["Vec"; "HashSet"; "BTreeSet"]%string then match args with [a] => TyArr (expect_ty_m m a) | _ => tref ["unknown"]%string end
+        else if named n ["Option"]%string then match args with [a] => flat_union (expect_ty_m m a) null_ty | _ => tref ["unknown"]%string end
+        else if named n ["HashMap"; "BTreeMap"]%string then match args with [k; v] => TyRef [L "Record"] [expect_ty_m m k; expect_ty_m m v] | _ => tref ["unknown"]%string end
+        else if named n ["Result"]%string then match args with a :: _ => expect_ty_m m a | _ => tref ["unknown"]%string end
+        else match lookup n m with Some t => target_ty t | None => TyRef [L "types"; n] [] end
+      end
+  end.
+Definition expected_payload_m (m : list (str * str)) (p : expr) (env : renv) : ty :=
+  match evident_type p env with Some t => expect_ty_m m t | None => unknown_ty end.
+Definition expected_payload (p : expr) (env : renv) : ty := expected_payload_m [] p env.
 
 (* ---------------- the documented emit sites of a body, with the two environments ----------------
    env: lexically scoped evident types (specification); sy: the tool's function-wide table, carried
@@ -306,9 +327,9 @@ Definition listener_payloads (l : lst) : option (ty * ty) :=
 Definition listener_event (l : lst) : option str := match ls_call l with Some (_, n) => Some n | None => None end.
 Definition subscribed_to (n : str) (l : lst) : bool :=
   match listener_event l with Some m => str_eqb m n | None => false end.
-Definition check_name (ss : list site) (ls : list lst) (n : str) : list complaint :=
+Definition check_name (m : list (str * str)) (ss : list site) (ls : list lst) (n : str) : list complaint :=
   let mine := filter (subscribed_to n) ls in
-  let wanted := map (fun s => expected_payload (s_payload s) (s_env s)) (filter (fun s => str_eqb (s_name s) n) ss) in
+  let wanted := map (fun s => expected_payload_m m (s_payload s) (s_env s)) (filter (fun s => str_eqb (s_name s) n) ss) in
   match mine with
   | [] => [cmp "missing-listener" n]
   | [l] =>
@@ -325,7 +346,7 @@ Definition reexports_events (index_ts : option str) : option bool :=
   | None => Some false
   | Some t => match parse_module t with Some m => Some (existsb (fun f => str_eqb f (L "./events")) (reexports m)) | None => None end
   end.
-Definition oracle (ss : list site) (events_ts index_ts : option str) : list complaint :=
+Definition oracle_m (mp : list (str * str)) (ss : list site) (events_ts index_ts : option str) : list complaint :=
   let names := dedup (site_names ss) in
   match names with
   | [] =>
@@ -339,7 +360,7 @@ Definition oracle (ss : list site) (events_ts index_ts : option str) : list comp
           | None => [cmp "unparseable-events-module" []]
           | Some m =>
               let ls := lsts m in
-              flat_map (check_name ss ls) names ++
+              flat_map (check_name mp ss ls) names ++
               flat_map (fun l => match listener_event l with
                                  | Some n => if existsb (str_eqb n) names then [] else [cmp "listener-without-emit" n]
                                  | None => [cmp "listener-shape" (ls_name l)] end) ls ++
@@ -347,6 +368,8 @@ Definition oracle (ss : list site) (events_ts index_ts : option str) : list comp
           end
       end
   end.
+
+Definition oracle := oracle_m [].
 
 (* which complaints the recorded classes account for on a given project *)
 Local Open Scope string_scope.
